@@ -24,7 +24,8 @@ Theorem C19_ctor_accepts : forall size init c s, ctor size init c = Ok s ->
 Proof. exact ctor_accepts. Qed.
 
 (* assigning initialized_size pads with zero bytes or truncates *)
-Theorem C19_set_init_length : forall s v, 0 <= v -> init_size (set_init s v) = v /\ bsize (set_init s v) = bsize s.
+(* (beyond the current size the interval grows with its initialized bytes, as ByteInterval::setInitializedSize of the C++ API) *)
+Theorem C19_set_init_length : forall s v, 0 <= v -> init_size (set_init s v) = v /\ bsize (set_init s v) = Z.max (bsize s) v.
 Proof. exact set_init_spec. Qed.
 Theorem C19_set_init_prefix : forall v l, 0 <= v ->
   firstn (Z.to_nat (Z.min v (zlen l))) (resize v l) = firstn (Z.to_nat (Z.min v (zlen l))) l.
@@ -38,7 +39,12 @@ Theorem C19_set_size : forall s v, 0 <= v -> bsize (set_size s v) = v /\
   init_size (set_size s v) = Z.min v (init_size s).
 Proof. exact set_size_spec. Qed.
 
-(* so stored bytes never exceed size after ANY sequence of such assignments ... *)
+(* ... whatever was stored before (also bytes assigned directly to `contents` beyond the size) *)
+Theorem C19_set_size_truncates : forall s v, 0 <= v -> zlen (bbytes (set_size s v)) <= v.
+Proof. exact set_size_truncates_anything. Qed.
+
+(* so stored bytes never exceed size after ANY sequence of size / initialized_size assignments (any non-negative values),
+   byte edits and in-size contents assignments ... *)
 Theorem C19_bytes_le_size : forall ops s, BInv s -> BInv (brun s ops).
 Proof. exact brun_inv. Qed.
 
@@ -65,8 +71,8 @@ Proof. exact contains_address_via_block_address. Qed.
 (* non-vacuity: shrink below the stored bytes, truncate, grow, pad *)
 Example C19_example :
   BInv {| bsize := 8; bbytes := [1;2;3;4;5;6] |} /\
-  brun {| bsize := 8; bbytes := [1;2;3;4;5;6] |} [BSetSize 4; BSetInit 2; BSetSize 10; BSetInit 7]
-  = {| bsize := 10; bbytes := [1;2;0;0;0;0;0] |}.
+  brun {| bsize := 8; bbytes := [1;2;3;4;5;6] |} [BSetSize 4; BSetInit 2; BSetInit 7; BSetContents [9;9]; BSetSize 1]
+  = {| bsize := 1; bbytes := [9] |}.
 Proof. split; [unfold BInv, zlen; simpl; lia | vm_compute; reflexivity]. Qed.
 
 Print Assumptions C19_init_size_is_len.
@@ -76,6 +82,7 @@ Print Assumptions C19_set_init_length.
 Print Assumptions C19_set_init_prefix.
 Print Assumptions C19_set_init_padding.
 Print Assumptions C19_set_size.
+Print Assumptions C19_set_size_truncates.
 Print Assumptions C19_bytes_le_size.
 Print Assumptions C19_saveable.
 Print Assumptions C19_block_address.
